@@ -17,6 +17,7 @@ import Frrs.Finalize
 import Frrs.Analyze
 import Frrs.Detect
 import Frrs.ShortHash
+import Frrs.CliValues
 namespace Frrs.Ops
 open Frrs Frrs.Wire
 
@@ -312,6 +313,14 @@ def dispatch (op : String) (args : List String) : Option String :=
   | "looksbinary", [b] => do pure (encBool (looksBinary (← decBytes b)))
   | "detect", [ms] => do pure (encList (detect (← decList ms)))
   | "needsescape", [v] => do pure (encBool (needsEscape (← decBytes v)))
+  -- opts.rs value parsers
+  | "clival", [kind, v] => do
+      let b ← decBytes v
+      match kind with
+      | "maxblob" => pure (match parseMaxBlobSize b with | some n => toString n | none => "err")
+      | "duration" => pure (match parseDuration b with | some n => toString n | none => "exit2")
+      | "timestamp" => pure (match parseTimestamp b with | some n => toString n | none => "exit2")
+      | _ => none
   -- limits.rs / message.rs
   | "dataheader", [line] => do
       pure (match parseDataHeader (← decBytes line) with | some n => toString n | none => "err")
